@@ -45,8 +45,8 @@ type vC02Res struct {
 	CRx    string      `json:"crx,omitempty"`   // ... and this tx
 	Acc    bool        `json:"acc"`             // ... and accepted
 	ID     string      `json:"id,omitempty"`
-	Was    bool        `json:"was"`  // the connection was already authenticated when the request was sent
-	Saw    string      `json:"saw"`  // what the custom masquerade handler saw (method|host|path), "" if not invoked / not observable
+	Was    bool        `json:"was"` // the connection was already authenticated when the request was sent
+	Saw    string      `json:"saw"` // what the custom masquerade handler saw (method|host|path), "" if not invoked / not observable
 	Err    string      `json:"err,omitempty"`
 	Skip   bool        `json:"skip,omitempty"` // request could not be built by the client library (not sent)
 }
@@ -148,7 +148,11 @@ func vRunC02(cs vC02Case) (out vC02Out) {
 			accepted = true
 		}
 		isAuthForm := s.Method == "POST" && s.Host == protocol.URLHost && path == protocol.URLPath
-		exempt := r.Acc || (r.Was && isAuthForm)
+		what0 := fmt.Sprintf("request #%d %s %q %q", i+1, s.Method, s.Host, s.Target)
+		if !isAuthForm && r.Called {
+			fail(what0 + ": authenticator consulted for a request that is not POST hysteria /auth")
+		}
+		exempt := isAuthForm && (r.Acc || r.Was)
 		if !exempt {
 			// the property's own predicate for this request
 			what := fmt.Sprintf("request #%d %s %q %q", i+1, s.Method, s.Host, s.Target)
@@ -171,9 +175,6 @@ func vRunC02(cs vC02Case) (out vC02Out) {
 			}
 			if cs.Cfg.Masq != 0 && r.Saw != s.Method+"|"+s.Host+"|"+path {
 				fail(fmt.Sprintf("%s: the masquerade handler saw %q", what, r.Saw))
-			}
-			if !isAuthForm && r.Called {
-				fail(what + ": authenticator consulted for a non-auth request")
 			}
 		}
 		out.Rs = append(out.Rs, r)
@@ -250,4 +251,3 @@ func TestVerifC02(t *testing.T) {
 		w.Emit(o)
 	}
 }
-
